@@ -366,7 +366,7 @@ func TestC12(t *testing.T) {
 		}
 		return out
 	}
-	rapidCheck(t, "C12/order", tier(8000, 800000), func(rt *rapid.T) {
+	rapidCheck(t, "C12/order", tier(8000, 3200000), func(rt *rapid.T) {
 		maxT := rapid.SampledFrom([]int64{5 * nsMs, 100 * nsMs, 3600 * 1000 * nsMs}).Draw(rt, "range")
 		// sort.Slice is only unstable above 12 elements: lists of up to 40 cues with many equal starts
 		maxN := rapid.SampledFrom([]int{10, 10, 40}).Draw(rt, "maxn")
@@ -395,7 +395,7 @@ func TestC12(t *testing.T) {
 		}
 		verdict(rt, "C12", "c12", c, checkC12)
 	})
-	rapidCheck(t, "C12/merge", tier(12000, 1200000), func(rt *rapid.T) {
+	rapidCheck(t, "C12/merge", tier(12000, 4800000), func(rt *rapid.T) {
 		maxT := rapid.SampledFrom([]int64{5 * nsMs, 100 * nsMs, 3600 * 1000 * nsMs}).Draw(rt, "range")
 		c := c12Case{
 			A:            genCues(rt, 0, rapid.SampledFrom([]int{6, 6, 20}).Draw(rt, "maxa"), maxT, opTexts),
